@@ -349,7 +349,11 @@ def nan_mapping(ctx: Ctx):
         if fv is None:
             ctx.undecided("nan-mapping", where, "no _flat_values", "dict -> np.nan")
             continue
-        body = SUMMARIZER.summarize(fv.node)
+        # the extractor together with the helpers it calls (a shared `_nan_filled_flat_values(payload)` of the base class)
+        from ..stmts import reachable_functions as _reach
+
+        bodies = [SUMMARIZER.summarize(f) for f in _reach(ctx.repo, ci, "_flat_values")]
+        body = ast.Tuple(elts=bodies, ctx=ast.Load())
         has_map = False
         wrong = None
         for n in ast.walk(body):
